@@ -208,6 +208,19 @@ def harness_gen(h, stream, seed, n, tier, extra=()):
     return [l for l in so.decode().split("\n") if l.strip()]
 
 
+def harness_run_parallel(h, stream, ops, workers=12):
+    """stateless streams: split the operations over several harness processes"""
+    import concurrent.futures
+    n = max(1, min(workers, len(ops) // 8 or 1))
+    chunks = [ops[i::n] for i in range(n)]
+    with concurrent.futures.ThreadPoolExecutor(n) as ex:
+        outs = list(ex.map(lambda c: harness_run(h, stream, c) if c else [], chunks))
+    res = [None] * len(ops)
+    for k, o in enumerate(outs):
+        res[k::n] = o
+    return res
+
+
 def harness_run(h, stream, ops, timeout=3600, extra=()):
     inp = ("\n".join(ops) + "\n").encode()
     env = dict(GOENV, GOMEMLIMIT="6GiB")
@@ -302,11 +315,11 @@ class Ctx:
     def kf_classes(self):
         return {k["class"]: k["what"] for k in self.known if k["property"] == self.pid}
 
-    def stream(self, stream, n, extra_gen=(), with_model=True, corpus=True, ops=None, seed=None):
+    def stream(self, stream, n, extra_gen=(), with_model=True, corpus=True, ops=None, seed=None, parallel=0):
         if ops is None:
             ops = (corpus_ops(self.pid, stream) if corpus else []) + harness_gen(
                 self.harness, stream, self.seed if seed is None else seed, n, self.tier, extra_gen)
-        impl = harness_run(self.harness, stream, ops)
+        impl = harness_run_parallel(self.harness, stream, ops, parallel) if parallel else harness_run(self.harness, stream, ops)
         model = driver_run(ops) if with_model else [None] * len(ops)
         return StreamRun(ops, impl, model)
 
